@@ -28,7 +28,7 @@ META = {
 
 def spec_case(ctx, rng):
     sr = ctx.sr
-    sym = rng.choice(gen.SYMS5)
+    sym = gen.pick_sym(rng)
     ferm = rng.random() < 0.4
     nd = rng.randint(1, 3)
     idx = [gen.rand_index(sr, rng, sym, maxc=3, maxd=2) for _ in range(nd)]
@@ -160,7 +160,7 @@ def spec_case(ctx, rng):
     xd = judge("from_dense", [], lambda: fd(charge=charge, **sargs, **okw), exp_sparse)
     if ident:
         judge("from_dense", ["charge"], lambda: fd(**sargs, **okw), exp_sparse)
-    if sym != "Z4":
+    if sym != "Z4" and sym not in R.USER_SYMS:
         if not (ferm and odd):
             judge("utils.from_dense", [], lambda: sr.utils.from_dense(dense, sym, maps, duals=duals, fermionic=ferm, charge=charge), exp_sparse, want_cls=gen.static_class(sr, sym, ferm))
     # ---- to_dense -> from_dense round trip
@@ -217,7 +217,7 @@ def projection_case(ctx, rng, given=None):
         sym, ferm, labels, duals = given
         nd = len(labels)
     else:
-        sym = rng.choice(gen.SYMS5)
+        sym = gen.pick_sym(rng)
         ferm = rng.random() < 0.4
         nd = rng.randint(1, 3)
         labels = []
@@ -340,9 +340,9 @@ def sibling_labelings(rng, sym, labels):
             return tuple(HASH_TWINS.get(v, v) for v in c)
         return HASH_TWINS.get(c, c)
 
-    valid = (lambda c: True) if sym in ("U1", "U1U1") else (lambda c: False)
+    valid = (lambda c: True) if sym in ("U1", "U1U1", "BoseFermi") else (lambda c: False)
     # (a) -1 <-> -2 at every / at one position
-    if sym in ("U1", "U1U1"):
+    if sym in ("U1", "U1U1", "BoseFermi"):
         l2 = [[tw(c) for c in l] for l in labels]
         if l2 != labels:
             out.append(("hash-twin-all", l2))
@@ -401,7 +401,7 @@ def no_sector_case(ctx, rng):
     """A total charge that no combination of the indices' charges conserves: every constructor
     must give the zero tensor (no stored block), whatever the index sizes."""
     sr = ctx.sr
-    sym = rng.choice(gen.SYMS5)
+    sym = gen.pick_sym(rng)
     ferm = rng.random() < 0.4
     nd = rng.randint(1, 4)
     if rng.random() < 0.5:
